@@ -2,6 +2,7 @@ import MindsVerif.Lemmas.DecodeMain
 import MindsVerif.Lemmas.Encode
 import MindsVerif.Lemmas.Codec
 import MindsVerif.Lemmas.FloatLex
+import MindsVerif.Model.LitChunk
 import MindsVerif.Gen.Reserved
 import MindsVerif.Gen.RenderPaths
 /-!
@@ -215,6 +216,50 @@ theorem C07_witness_float_fixed_decimals :
     FloatPos.positionalParts ⟨false, ['1'], ['5'], true, 7⟩ = (['0'], "00000015".toList) ∧
     digitsValue (['0'] ++ "00000015".toList) * 10 ^ (1 + 7) = digitsValue (['1'] ++ ['5']) * 10 ^ 8 ∧
     ¬ (digitsValue (['0'] ++ "000000".toList) * 10 ^ (1 + 7) = digitsValue (['1'] ++ ['5']) * 10 ^ 6) := by
+  decide +kernel
+
+/-! ## Round 6: literals written in pieces (length-dependent rendering paths)
+
+`C07_std` / `C07_mysql` hold for strings of every length — they are theorems about `renderLiteral`.  Whether the live
+`quote_literal` IS `renderLiteral` also for long values is the tie's matter (streams `render-long`, `readers-long`:
+values around every power-of-two / round-number length up to 10 000 with a quote / backslash at and around the
+boundary, every dialect name and one path per dialect group).  What the model says about cutting a long text: -/
+
+theorem chunksGo_flatten (n : Nat) (hn : 0 < n) : ∀ (f : Nat) (l : List Char), l.length ≤ f →
+    (LitChunk.chunksGo n f l).flatten = l
+  | 0, l, h => by
+    have : l = [] := List.eq_nil_of_length_eq_zero (by omega)
+    subst this; rfl
+  | f + 1, l, h => by
+    by_cases hl : l = []
+    · subst hl; simp [LitChunk.chunksGo]
+    · have hlen : 0 < l.length := List.length_pos_iff.mpr hl
+      have ih := chunksGo_flatten n hn f (l.drop n) (by simp only [List.length_drop]; omega)
+      simp [LitChunk.chunksGo, hl, ih]
+
+theorem readConcat_render (ps : List (List Char)) :
+    LitChunk.readConcat (ps.map (renderLiteral false)) = some ps.flatten := by
+  induction ps with
+  | nil => rfl
+  | cons p t ih =>
+    have h := C07_std p [] (by simp)
+    simp only [List.append_nil] at h
+    simp [LitChunk.readConcat, h, ih]
+
+/-- **cutting the VALUE is sound, for every piece length and every string**: the pieces of `v`, each rendered as its
+own literal, read back (standard-SQL reader, literal by literal, nothing left over) and concatenate to exactly `v` -/
+theorem C07_chunks_sound (n : Nat) (hn : 0 < n) (v : List Char) :
+    LitChunk.readConcat ((LitChunk.chunks n v).map (renderLiteral false)) = some v := by
+  rw [readConcat_render, LitChunk.chunks, chunksGo_flatten n hn _ _ (Nat.le_refl _)]
+
+/-- **cutting the quoted text is not** (the class of the escaped change; piece length 4 instead of 4000): the doubled
+quote of `abc'd` straddles the cut, the first piece `'abc''` is no terminated literal, and in the statement text the
+literal that starts there swallows `) || TO_CLOB(` -/
+theorem C07_witness_split_after_doubling :
+    LitChunk.splitAfterDoubling 4 "abc'd".toList = ["'abc''".toList, "''d'".toList] ∧
+    LitChunk.readConcat (LitChunk.splitAfterDoubling 4 "abc'd".toList) = none ∧
+    stdLex "'abc'') || TO_CLOB(''d'))".toList = some ("abc') || TO_CLOB('d".toList, "))".toList) ∧
+    LitChunk.readConcat ((LitChunk.chunks 4 "abc'd".toList).map (renderLiteral false)) = some "abc'd".toList := by
   decide +kernel
 
 end MindsVerif.Props.C07
